@@ -1115,7 +1115,16 @@ func (fr *freshCtx) fresh(v ssa.Value, at ssa.Instruction, depth int) (bool, int
 	case *ssa.UnOp:
 		if x.Op == token.MUL {
 			// a loaded pointer/slice/map: fresh if the location it was loaded from was assigned a fresh container before
-			return fr.freshContainer(x, at, depth+1)
+			if ok, pi := fr.freshContainer(x, at, depth+1); ok || pi >= 0 {
+				return ok, pi
+			}
+			if jsonDecodedLocal(x) {
+				return true, -1
+			}
+			if pi := fr.paramRoot(x, 0); pi >= 0 {
+				return false, pi
+			}
+			return false, -1
 		}
 	case *ssa.Phi:
 		for _, e := range x.Edges {
@@ -1125,7 +1134,97 @@ func (fr *freshCtx) fresh(v ssa.Value, at ssa.Instruction, depth int) (bool, int
 		}
 		return true, -1
 	}
+	// a map / slice / interface tree handed in as a parameter (a generic walk over a decoded document): the write is
+	// lifted to the call sites, which must pass a tree nobody else holds
+	if pi := fr.paramRoot(v, 0); pi >= 0 {
+		return false, pi
+	}
+	if jsonDecodedLocal(v) {
+		return true, -1
+	}
 	return false, -1
+}
+
+// paramRoot: v is (a part of) the dynamic value of parameter i, reached through type assertions, map / slice element
+// reads and range iteration only. -1 otherwise.
+func (fr *freshCtx) paramRoot(v ssa.Value, depth int) int {
+	if depth > 12 {
+		return -1
+	}
+	switch x := v.(type) {
+	case *ssa.Parameter:
+		for i, p := range fr.fn.Params {
+			if p == x {
+				return i
+			}
+		}
+	case *ssa.TypeAssert:
+		return fr.paramRoot(x.X, depth+1)
+	case *ssa.Extract:
+		return fr.paramRoot(x.Tuple, depth+1)
+	case *ssa.Next:
+		return fr.paramRoot(x.Iter, depth+1)
+	case *ssa.Range:
+		return fr.paramRoot(x.X, depth+1)
+	case *ssa.Lookup:
+		return fr.paramRoot(x.X, depth+1)
+	case *ssa.Index:
+		return fr.paramRoot(x.X, depth+1)
+	case *ssa.IndexAddr:
+		return fr.paramRoot(x.X, depth+1)
+	case *ssa.UnOp:
+		if x.Op == token.MUL {
+			if ia, ok := x.X.(*ssa.IndexAddr); ok {
+				return fr.paramRoot(ia.X, depth+1)
+			}
+		}
+	case *ssa.ChangeInterface:
+		return fr.paramRoot(x.X, depth+1)
+	case *ssa.MakeInterface:
+		return fr.paramRoot(x.X, depth+1)
+	}
+	return -1
+}
+
+// jsonDecodedLocal: v is the value of a local interface variable that is only ever filled by encoding/json (Decoder.Decode
+// or Unmarshal given its address): the decoder builds that tree out of maps and slices it allocates itself.
+func jsonDecodedLocal(v ssa.Value) bool {
+	u, ok := v.(*ssa.UnOp)
+	if !ok || u.Op != token.MUL {
+		return false
+	}
+	al, ok := u.X.(*ssa.Alloc)
+	if !ok {
+		return false
+	}
+	if _, isIface := al.Type().(*types.Pointer).Elem().Underlying().(*types.Interface); !isIface {
+		return false
+	}
+	decoded := false
+	for _, r := range refs(al) {
+		switch x := r.(type) {
+		case *ssa.UnOp, *ssa.DebugRef:
+		case *ssa.MakeInterface:
+			// &v boxed for the decoder
+			for _, rr := range refs(x) {
+				call, isCall := rr.(*ssa.Call)
+				if _, dbg := rr.(*ssa.DebugRef); dbg {
+					continue
+				}
+				if !isCall {
+					return false
+				}
+				n := calleeName(call.Common())
+				if !(strings.HasSuffix(n, "encoding/json.Decoder).Decode") || n == "encoding/json.Unmarshal") {
+					return false
+				}
+				decoded = true
+			}
+		default:
+			return false
+		}
+	}
+	return decoded
 }
 
 // freshContainer: the slice/map/pointer value v (possibly loaded from a field) denotes memory allocated in this call.
